@@ -263,6 +263,10 @@ def gen_cases(rng, n_ridge, n_esn, n_legacy, n_run, thorough=False):
                       "W": rand_rows(rng, N, N, lim=2, maxpow=2), "Win": rand_rows_nz(rng, N, din),
                       "b": rand_rows(rng, N, 1, lim=2, maxpow=1),
                       "X": Xs, "Y": Ys, "configs": cfg, "order": rng.sample(range(m), m),
+                      # a SECOND fit of an already fitted ESN under a parallel schedule (process backends ship the fitted readout
+                      # to the workers): the same solution again
+                      "refit_configs": [(2, "threading")] + ([(2, "loky")] if (thorough or i % 4 == 0) else [])
+                                       + ([(3, "multiprocessing")] if thorough and i % 3 == 0 else []),
                       "dwell_seed": rng.randint(0, 10 ** 6)})
     for i in range(n_legacy):
         din, dout, N = rng.randint(1, 2), rng.randint(1, 2), rng.randint(2, 3)
@@ -390,6 +394,11 @@ def run_esn(c, dwell_ms=1.0):
                                "n_tasks": len(tasks), "threads": len({t["tid"] for t in tasks}),
                                "overlaps": overlapping(tasks), "sched": sched, "task_seq": match_tasks(tasks, grams),
                                "XXT": np.asarray(px).tolist(), "YXT": np.asarray(py).tolist()})
+    for k, be in c.get("refit_configs", []):
+        esn, res, rd = mk_esn(c, k, be, "rf%s%d" % (be[:3], k))
+        esn.fit(Xs[::-1], [2.0 * y + 1.0 for y in Ys[::-1]], warmup=w)          # an earlier, completed session on other targets
+        esn.fit(Xs, Ys, warmup=w)
+        sols.append(dict(wb(rd), how="esn RE-fit (already fitted) workers=%s backend=%s" % (k, be)))
     single = None
     if "X1" in c:
         x1, y1, w1 = farr(c["X1"], c["din"]), farr(c["Y1"], c["dout"]), c["w1"]
